@@ -7,6 +7,14 @@
 (*   base/reservable_priority_req_filter_store.py (kind "filter")          *)
 (*   base/buffer_store.py                    (kind "buffer", FIFO | LIFO)  *)
 (*   base/fleet_store.py                     (kind "fleet")                *)
+(*   base/slotted_belt_store.py behind edges/slotted_conveyor.py           *)
+(*                                           (kind "slotted", c.trig = the *)
+(*       slot delay in ticks, travel time = cap * slot).  As the code      *)
+(*       stands: the conveyor's stall / accumulation state machine never   *)
+(*       leaves IDLE (known finding of C13), so noaccumulation_mode_on is  *)
+(*       always False and no move process is ever interrupted; what is     *)
+(*       left is a delayed store with an admission spacing rule and one    *)
+(*       delayed re-trigger of the put side per item.                      *)
 (* Every operator Do<Call>(s, ...) returns [s |-> s', r |-> result].  The  *)
 (* modules Store (one store under an arbitrary environment), Factory       *)
 (* (stores as edges between node processes) and Trace_StoreModel (replay   *)
@@ -73,7 +81,9 @@ InsertSorted(q, tok) ==
   IN SubSeq(q, 1, k) \o <<tok>> \o SubSeq(q, k+1, Len(q))
 
 HasPrio(s) == s.c.kind \in {"prio", "filter", "fleet"}
-Timed(s)   == s.c.kind \in {"buffer", "fleet"}
+Timed(s)   == s.c.kind \in {"buffer", "fleet", "slotted"}
+Slotted(s) == s.c.kind = "slotted"
+Travel(s)  == s.c.cap * s.c.trig
 
 TokNums(q) == {q[i].n : i \in 1..Len(q)}
 LiveNums(s) == TokNums(s.putQ) \cup TokNums(s.putRes) \cup TokNums(s.getQ) \cup TokNums(s.getRes)
@@ -98,7 +108,10 @@ FltOk(f, it) == CASE f = 0 -> it.rem = 0
 ---------------------------------------------------------------------------
 (* _do_reserve_put / _trigger_reserve_put: the head of the queue only,     *)
 (* once (the helper returns None, so the loop breaks after one element).   *)
-PutRoom(s) == Len(s.putRes) + NInside(s) < s.c.cap
+\* slotted belt store: while something is in transit, the item that entered last must have entered at least one
+\* slot delay ago (now >= items[-1].conveyor_entry_time + delay); with nothing in transit only the capacity counts
+Spaced(s)  == s.items = <<>> \/ s.items[Len(s.items)].rem <= Travel(s) - s.c.trig
+PutRoom(s) == Len(s.putRes) + NInside(s) < s.c.cap /\ (Slotted(s) => Spaced(s))
 
 TrigPut(s) ==
   IF s.putQ # <<>> /\ PutRoom(s)
@@ -129,7 +142,7 @@ TrigGet1(s) ==
                                    !.resEv = Append(@, t.n),
                                    !.items = [moved EXCEPT ![R + 1].was = TRUE]]
          ELSE s
-    [] s.c.kind \in {"buffer", "fleet"} ->
+    [] s.c.kind \in {"buffer", "fleet", "slotted"} ->
          IF Len(s.getRes) < Len(s.ready)
          THEN LET j   == Len(s.resEv)
                   un  == SelectIdx(s.ready, LAMBDA it : ~Reserved(s, it))
@@ -213,6 +226,7 @@ DoPutId(s, p, n, tag, delay, id) ==
   LET dummy == 0
       it == [id |-> id, tag |-> tag,
              rem |-> CASE s.c.kind = "buffer" -> delay
+                       [] s.c.kind = "slotted" -> Travel(s)
                        [] s.c.kind = "filter" -> s.c.trig
                        [] OTHER -> 0,
              trip |-> 0, was |-> FALSE]
@@ -224,6 +238,8 @@ DoPutId(s, p, n, tag, delay, id) ==
                    ELSE [s1 EXCEPT !.timers = Append(@, s.c.trig)]
               [] s.c.kind = "fleet"  ->
                    IF NInside(s1) = s.c.cap THEN [s1 EXCEPT !.act.armed = TRUE] ELSE s1
+              \* move_to_ready_items phase 1: after one slot delay an event whose callback is _trigger_reserve_put
+              [] s.c.kind = "slotted" -> [s1 EXCEPT !.timers = Append(@, s.c.trig)]
               [] OTHER -> s1
   IN [s |-> IF s.c.kind = "fleet" THEN TrigGet(TrigGet(s2)) ELSE TrigGet(s2), r |-> <<"ok">>]
 
@@ -257,12 +273,13 @@ CanGet(s) == IF s.ready = <<>> THEN FALSE ELSE Len(s.ready) > Len(s.getRes)
 (* fires in the current instant (FireX), and the clock advances (DoTick)   *)
 (* only when nothing is due.                                               *)
 
-DueItems(s)  == IF s.c.kind = "buffer" THEN SelectIdx(s.items, LAMBDA it : it.rem = 0) ELSE {}
-DueTimers(s) == IF s.c.kind = "filter" THEN SelectIdx(s.timers, LAMBDA r : r = 0) ELSE {}
+DueItems(s)  == IF s.c.kind \in {"buffer", "slotted"} THEN SelectIdx(s.items, LAMBDA it : it.rem = 0) ELSE {}
+DueTimers(s) == IF s.c.kind \in {"filter", "slotted"} THEN SelectIdx(s.timers, LAMBDA r : r = 0) ELSE {}
 DueTrips(s)  == IF s.c.kind = "fleet"  THEN SelectIdx(s.trips,  LAMBDA r : r = 0) ELSE {}
 ActDue(s)    == s.c.kind = "fleet" /\ (s.act.rem = 0 \/ s.act.armed)
 AnyDue(s)    == DueItems(s) # {} \/ DueTimers(s) # {} \/ DueTrips(s) # {} \/ ActDue(s)
 HasTimers(s) == \/ s.c.kind = "buffer" /\ s.items # <<>>
+                \/ s.c.kind = "slotted" /\ (s.items # <<>> \/ s.timers # <<>>)
                 \/ s.c.kind = "filter" /\ (s.timers # <<>> \/ \E i \in 1..Len(s.items) : s.items[i].rem > 0)
                 \/ s.c.kind = "fleet"
 
@@ -285,7 +302,8 @@ FireItem(s) ==
 (* filter store: _add_trigger_event -> _trigger_reserve_get *)
 FireTimer(s) ==
   LET i == CHOOSE i \in DueTimers(s) : TRUE
-  IN TrigGet([s EXCEPT !.timers = DropAt(@, i)])
+  IN IF Slotted(s) THEN TrigPut([s EXCEPT !.timers = DropAt(@, i)])      \* end of an item's entry phase
+     ELSE TrigGet([s EXCEPT !.timers = DropAt(@, i)])
 
 (* FleetStore.fleet_activation_process, one wake-up.                       *)
 (* Repaired code: everything still waiting departs as one batch (snapshot),*)
